@@ -330,87 +330,44 @@ hist_arm!(c04_mirror_open_then_scan, {
 });
 
 // ------------------------------------------------------------------------------------------------ C07
-/// (name length, definition line) per entry — enough to tell the table's definitions apart; comparing cloned name
-/// Strings made the propositional encoding explode (12 GB), comparing scalars does not
-fn lines_of(v: &[FixtureDefinition]) -> Vec<(usize, usize)> { v.iter().map(|d| (d.name.len(), d.line)).collect() }
-fn clear_caches(db: &FixtureDatabase) {
-    db.available_fixtures_cache.clear();
-    db.cycle_cache.clear();
-    db.imported_fixtures_cache.clear();
-    db.line_index_cache.clear();
-    db.ast_cache.clear();
-}
-/// conftest C_F in the index (seeded); WARM the per-file view of U; then the conftest is re-analysed with $t;
-/// the warm answer must equal the answer of an identically built twin index that was never queried before (cold).
-macro_rules! c07_warm {
-    ($id:ident, $t:ident, $kf:expr) => {
-        hist_arm!($id, {
-            // twin databases driven by the same history; only the warm twin is queried before the edit
-            let warm_db = FixtureDatabase::new();
-            let first = fresh_c_f(PC);
-            seed_file_state(&warm_db, PC, T_C_F, &first);
-            let warm0 = warm_db.get_available_fixtures(Path::new(PU));
-            note!("warm view {:?}; then {}", lines_of(&warm0), stringify!($t));
-            warm_db.analyze_file(PathBuf::from(PC), $t);
-            let warm = lines_of(&warm_db.get_available_fixtures(Path::new(PU)));
-            let cold_db = FixtureDatabase::new();
-            seed_file_state(&cold_db, PC, T_C_F, &first);
-            cold_db.analyze_file(PathBuf::from(PC), $t);
-            let cold = lines_of(&cold_db.get_available_fixtures(Path::new(PU)));
-            note!("warm={:?} cold={:?}", warm, cold);
-            let same = warm.len() == cold.len() && warm.iter().zip(cold.iter()).all(|(a, b)| a.1 == b.1 && a.0 == b.0);
-            if $kf && crate::kf::C07_NO_VERSION_BUMP_ON_REMOVAL {
-                check!("KF:c07.available.warm_is_cold", same);
-            } else {
-                check!("c07.available.warm_is_cold", same);
-            }
-            reach!("c07.available.end");
-            std::mem::forget(first); std::mem::forget(warm0); std::mem::forget(warm); std::mem::forget(cold);
-            std::mem::forget(warm_db); std::mem::forget(cold_db);
-        });
-    };
-}
-/// @harness id=c07_warm_then_remove props=C07 tier=quick unwind=18 mem=12 cap=2400 gates=seed unwindset=find_inner:3;memchr_seq:400;rec~ParseErrorType:3;rec~LexicalErrorType:3;rec~FStringErrorType:3;rec~drop_glue::<std::io::Error:3;memchr_bytewise:64;sip:48;next_match:40
-/// warm per-file view, then the edit only REMOVES definitions (C_EMPTY): warm == cold.
-c07_warm!(c07_warm_then_remove, T_C_EMPTY, true);
-/// @harness id=c07_warm_then_move props=ATTEMPT tier=thorough unwind=18 mem=12 cap=2400 gates=seed unwindset=find_inner:3;memchr_seq:400;rec~ParseErrorType:3;rec~LexicalErrorType:3;rec~FStringErrorType:3;rec~drop_glue::<std::io::Error:3;memchr_bytewise:64;sip:48;next_match:40
-/// warm per-file view, then the edit keeps the name set and moves f to another line (C_F_LINE): warm == cold.
-c07_warm!(c07_warm_then_move, T_C_F_LINE, false);
-/// @harness id=c07_warm_then_rename props=ATTEMPT tier=thorough unwind=18 mem=12 cap=2400 gates=seed unwindset=find_inner:3;memchr_seq:400;rec~ParseErrorType:3;rec~LexicalErrorType:3;rec~FStringErrorType:3;rec~drop_glue::<std::io::Error:3;memchr_bytewise:64;sip:48;next_match:40
-/// warm per-file view, then the edit renames f to g (C_G): warm == cold.
-c07_warm!(c07_warm_then_rename, T_C_G, false);
-/// @harness id=c07_warm_then_add props=ATTEMPT tier=thorough unwind=18 mem=12 cap=2400 gates=seed unwindset=find_inner:3;memchr_seq:400;rec~ParseErrorType:3;rec~LexicalErrorType:3;rec~FStringErrorType:3;rec~drop_glue::<std::io::Error:3;memchr_bytewise:64;sip:48;next_match:40
-/// warm per-file view, then the edit moves f and adds g (C_F_MOVED): warm == cold.
-c07_warm!(c07_warm_then_add, T_C_F_MOVED, false);
-
-/// conftest C_F and test module U_T in the index (seeded); close one document (cleanup_file_cache); resolution
-/// from the test module and its per-file view must be what they were before the close.
-macro_rules! c07_close {
-    ($id:ident, $p:ident) => {
-        hist_arm!($id, {
-            let db = FixtureDatabase::new();
-            let fc = fresh_c_f(PC); let fu = fresh_u_t(PU);
-            seed_file_state(&db, PC, T_C_F, &fc);
-            seed_file_state(&db, PU, T_U_T, &fu);
-            std::mem::forget(fc); std::mem::forget(fu);
-            let before = db.find_closest_definition(Path::new(PU), "f").map(|d| d.line);
-            let av_before = lines_of(&db.get_available_fixtures(Path::new(PU)));
-            note!("close {}", $p);
-            db.cleanup_file_cache(Path::new($p));
-            let after = db.find_closest_definition(Path::new(PU), "f").map(|d| d.line);
-            let av_after = lines_of(&db.get_available_fixtures(Path::new(PU)));
-            note!("resolution {:?} -> {:?}; view {:?} -> {:?}", before, after, av_before, av_after);
-            check!("c07.close.resolution_unchanged", before == after);
-            check!("c07.close.view_unchanged", av_before == av_after);
-            reach!("c07.close.end");
-            std::mem::forget(av_before); std::mem::forget(av_after); std::mem::forget(db);
-        });
-    };
-}
-
-/// @harness id=c07_close_conftest props=C07 tier=quick unwind=18 mem=12 cap=2400 gates=seed unwindset=find_inner:3;memchr_seq:400;rec~ParseErrorType:3;rec~LexicalErrorType:3;rec~FStringErrorType:3;rec~drop_glue::<std::io::Error:3;memchr_bytewise:64;sip:48;next_match:40
-/// open-then-close of the unmodified conftest.
-c07_close!(c07_close_conftest, PC);
-/// @harness id=c07_close_test_module props=C07 tier=thorough unwind=18 mem=12 cap=2400 gates=seed unwindset=find_inner:3;memchr_seq:400;rec~ParseErrorType:3;rec~LexicalErrorType:3;rec~FStringErrorType:3;rec~drop_glue::<std::io::Error:3;memchr_bytewise:64;sip:48;next_match:40
-/// open-then-close of the unmodified test module.
-c07_close!(c07_close_test_module, PU);
+/// conftest C_F in the index (seeded); WARM the per-file view of U; then the conftest is re-analysed with the EMPTY
+/// text (real analyze_file: every definition removed); the warm answer must be what an index that was never
+/// queried before answers — which, for a file without definitions, is the empty view (fresh_c_empty has no
+/// definitions). Scalars only are compared (entry count, line of the first entry): comparing cloned Strings or
+/// running a twin database pushed the propositional encoding over 12 GB.
+/// @harness id=c07_warm_then_remove props=C07 tier=quick unwind=18 mem=10 cap=1500 gates=seed unwindset=memchr_seq:400;memchr_bytewise:64;sip:48;next_match:40;rec~ParseErrorType:3;rec~LexicalErrorType:3;rec~FStringErrorType:3
+/// warm per-file view, then the edit only REMOVES definitions (empty text): warm == cold.
+hist_arm!(c07_warm_then_remove, {
+    let db = FixtureDatabase::new();
+    let first = fresh_c_f(PC);
+    seed_file_state(&db, PC, T_C_F, &first);
+    let warm0 = db.get_available_fixtures(Path::new(PU));
+    note!("warm view before the edit: {} entries", warm0.len());
+    db.analyze_file(PathBuf::from(PC), T_C_EMPTY);
+    let warm = db.get_available_fixtures(Path::new(PU));
+    let cold_len = fresh_c_empty(PC).defs.len();
+    note!("warm view after the edit: {} entries (first line {:?}); cold view: {} entries", warm.len(), warm.first().map(|d| d.line), cold_len);
+    check!("c07.available.warmed_before_edit", warm0.len() == 1);
+    if crate::kf::C07_NO_VERSION_BUMP_ON_REMOVAL {
+        check!("KF:c07.available.warm_is_cold", warm.len() == cold_len);
+    } else {
+        check!("c07.available.warm_is_cold", warm.len() == cold_len);
+    }
+    reach!("c07.available.end");
+    std::mem::forget(warm0); std::mem::forget(warm); std::mem::forget(first); std::mem::forget(db);
+});
+/// @harness id=c07_close_conftest props=C07 tier=quick unwind=18 mem=10 cap=1500 gates=seed unwindset=memchr_seq:400;memchr_bytewise:64;sip:48;next_match:40;rec~ParseErrorType:3;rec~LexicalErrorType:3;rec~FStringErrorType:3
+/// conftest C_F in the index (seeded); the per-file view of U is computed, the conftest document is closed
+/// (cleanup_file_cache), the view is computed again: same number of entries, same definition line.
+hist_arm!(c07_close_conftest, {
+    let db = FixtureDatabase::new();
+    let first = fresh_c_f(PC);
+    seed_file_state(&db, PC, T_C_F, &first);
+    let before = db.get_available_fixtures(Path::new(PU));
+    db.cleanup_file_cache(Path::new(PC));
+    let after = db.get_available_fixtures(Path::new(PU));
+    note!("view before close: {:?}; after: {:?}", before.iter().map(|d| d.line).collect::<Vec<_>>(), after.iter().map(|d| d.line).collect::<Vec<_>>());
+    check!("c07.close.view_unchanged", before.len() == after.len() && before.first().map(|d| d.line) == after.first().map(|d| d.line));
+    reach!("c07.close.end");
+    std::mem::forget(before); std::mem::forget(after); std::mem::forget(first); std::mem::forget(db);
+});
